@@ -2,7 +2,7 @@
 of the library (VERIF_REPO, a git checkout), re-translate the source (gen_kernels.regenerate(): kernels, node methods,
 _emit) and rebuild the property files whose cones contain the bridges.  A harmless rewrite must leave both quiet:
   translator ok  - regenerate() reports no KernelError
-  bridges ok     - Props/C01 C05 C09 C10 C13 C16 C04 still build (every Base/Bridge*.v is in one of their cones)
+  bridges ok     - Props/C01 C05 C09 C10 C13 C16 C04 C06 C07 still build (every Base/Bridge*.v is in one of their cones)
 The checkout is restored after every diff (`git apply -R`, then `git checkout -- .` as a safety net) and the generated
 files are brought back to the unmodified source at the end.
 
@@ -22,9 +22,9 @@ import gen_kernels
 from kern_acceptance import sh, theorem_at
 
 REPO = gen_kernels.REPO
-TARGETS = ["theories/Props/%s.vo" % c for c in ("C01", "C05", "C09", "C10", "C13", "C16", "C04")]
+TARGETS = ["theories/Props/%s.vo" % c for c in ("C01", "C05", "C09", "C10", "C13", "C16", "C04", "C06", "C07")]
 QUICK = ["theories/Base/%s.vo" % b for b in ("BridgeKafka", "BridgeRateLimit", "BridgeRefCounter", "BridgeSlice", "BridgeNodes",
-                                              "BridgeEmit")]
+                                              "BridgeEmit", "BridgeAggs", "BridgeAggsVec", "BridgeAggsWindow", "BridgeAggsIloc")]
 
 
 def build():
